@@ -246,8 +246,12 @@ example : (parseFloatSyntax ⟨{}, Format.standard, true⟩ {} false
 /-! ## Part 3 — integer and fraction iterators contiguous, `Bytes` not contiguous
 
 The format has a digit-separator byte, but only the exponent (and/or the special values) may contain it
-(`integer_*_digit_separator` and `fraction_*_digit_separator` flags all clear). Then `current_count()` is
-`integer_count + fraction_count + exponent_count`, `parse_8digits` does not count what it consumes, and every
+(`integer_*_digit_separator` and `fraction_*_digit_separator` flags all clear). Then `Bytes::current_count()` is
+`integer_count + fraction_count + exponent_count`; the contiguous integer / fraction iterators count by the cursor
+(`current_count() = byte.index`, repaired in /repo 12a2453) and `try_parse_8digits` / `try_parse_4digits` now call
+`increment_count()` for every digit they step over (repaired in /repo 7e8a135; before, `parse_8digits` did not
+count what it consumed — former finding `sep-format-uncounted-8digit-block`; the no-panic proof only needs
+`tryParse8_spec`: cursor + 8, `Adv` preserved). Every
 `Bytes::step_unchecked` (sign, decimal point, exponent character, base suffix) and every exponent-iterator step
 asserts "not on the digit separator". Additional hypotheses: `is_valid_options_punctuation`, and the separator
 must differ from the exponent character and the base suffix *up to ASCII case* where the parser compares
@@ -321,6 +325,20 @@ example : ValidIntFracContiguous ⟨fFormat, ⟨0xa0a0a000000005f000009240000000
 /-- … and a separator in the exponent is really skipped there: `1.5e1_0` -/
 example : (parseFloatSyntax ⟨fFormat, ⟨0xa0a0a000000005f000009240000000c⟩, true⟩ {} false
     [49, 46, 53, 101, 49, 95, 48]).toBool = true := by decide +kernel
+
+/-- regression (former finding `sep-format-uncounted-8digit-block`, repaired in /repo 7e8a135 + 12a2453), debug
+build: in this class the digits of the 8-digit fast loop are counted now — `12345678` is a number with mantissa
+12345678 (it used to be rejected as an empty mantissa) and `1.123456789` keeps its nine fraction digits -/
+theorem regression_intfrac_counts_8digit_block :
+    (match parseFloatSyntax ⟨fFormat, ⟨0xa0a0a000000005f000009240000000c⟩, true⟩ {} false
+        [49, 50, 51, 52, 53, 54, 55, 56] with
+      | .ok (.number n _) => n.mantissa == 12345678 && n.exponent == 0
+      | _ => false) = true ∧
+    (match parseFloatSyntax ⟨fFormat, ⟨0xa0a0a000000005f000009240000000c⟩, true⟩ {} false
+        [49, 46, 49, 50, 51, 52, 53, 54, 55, 56, 57] with
+      | .ok (.number n _) =>
+        n.fraction == some [49, 50, 51, 52, 53, 54, 55, 56, 57] && n.exponent == -9 && n.mantissa == 1123456789
+      | _ => false) = true := by decide +kernel
 
 /-! ## Part 4 — integer / fraction iterators contiguous **or I+L+T+C**
 
